@@ -231,7 +231,7 @@ yield2:
 		}
 		/* massage our status structures */
 		set_loff(ctx, ctx->tot_lno, p - ctx->buf);
-		if (UNLIKELY(p[-1] == '\r')) {
+		if (UNLIKELY(p > ctx->buf && p[-1] == '\r')) {
 			/* oh god, when is this nightmare gonna end */
 			p[-1] = '\0';
 			set_lftermd(ctx, ctx->tot_lno);
